@@ -86,6 +86,7 @@ impl WalRecovery {
                             let generated = ctx.next_event_id();
                             event.set_event_id(generated);
                         }
+                        ctx.event_id_gen.advance_past(event.event_id());
 
                         if let Err(e) = ctx.memtable.insert(event) {
                             return Err(std::io::Error::new(std::io::ErrorKind::Other, e));
